@@ -18,6 +18,7 @@ from fractions import Fraction
 import z3
 
 from . import proxies as P
+from . import isolate
 
 
 class PathAbort(BaseException):
@@ -361,6 +362,7 @@ class Engine:
         """Run one path. Returns status in {'ok','infeasible','error','budget'} and an info dict."""
         self._reset_path(tuple(prefix))
         self.solver.push()
+        isolate.reset()
         P.CUR = self
         status, err = "ok", None
         try:
@@ -407,27 +409,31 @@ class ConcreteEnv:
         self.notes = {}
         self.observed = None
         self.used = set()
+        self.defaulted = set()
 
-    def _get(self, name):
+    def _get(self, name, default=None):
         self.used.add(name)
         if name not in self.values:
-            raise AssumeFailed("input %s not in the recorded assignment" % name)
+            # the recorded assignment ends where the violated clause was checked: inputs declared later do not matter
+            # for it, the first admissible value is taken
+            self.defaulted.add(name)
+            return default
         return self.values[name]
 
     def int(self, name, lo, hi):
-        v = self._get(name)
+        v = self._get(name, lo)
         if not (lo <= v <= hi):
             raise AssumeFailed(name)
         return int(v)
 
     def bool(self, name):
-        return bool(self._get(name))
+        return bool(self._get(name, False))
 
     def choice(self, name, options):
         options = list(options)
         if all(isinstance(o, bool) for o in options) and len(set(options)) < 2:
             return options[0]
-        v = self._get(name)
+        v = self._get(name, options[0])
         if v not in options:
             raise AssumeFailed(name)
         for o in options:
@@ -436,7 +442,7 @@ class ConcreteEnv:
         return v
 
     def perm(self, name, n):
-        vs = [int(self._get("%s_%d" % (name, i))) for i in range(n)]
+        vs = [int(self._get("%s_%d" % (name, i), i)) for i in range(n)]
         if sorted(vs) != list(range(n)):
             raise AssumeFailed(name)
         return vs
@@ -470,6 +476,7 @@ class ConcreteEnv:
 
 def run_concrete(fn, params, values, alphabet=()):
     env = ConcreteEnv(values, alphabet)
+    isolate.reset()
     P.CUR = None
     try:
         fn(env, **params)
